@@ -1343,6 +1343,8 @@ func (t *Tree) removeSingleNodesRecur(current, previous *Node, e *Edge) error {
 				previous.addChild(child, child.br[idx])
 				if child.br[idx].Length() != NIL_LENGTH && length != NIL_LENGTH {
 					child.br[idx].SetLength(child.br[idx].Length() + length)
+				} else if length != NIL_LENGTH {
+					child.br[idx].SetLength(length)
 				}
 			}
 		}
